@@ -94,7 +94,7 @@ Lemma f1_refuted_packed :
     ~ crash_atomic_at unfixed maxsz ops i j cut.
 Proof.
   exists 40, f1_ops, 2%nat, 1%nat, None. repeat split.
-  - repeat constructor; cbn; try apply valid_r1; try apply valid_r2.
+  - repeat constructor; cbn; try apply valid_r1; try apply valid_r2; vm_compute; reflexivity.
   - exact f1_refuted.
 Qed.
 
@@ -104,6 +104,6 @@ Lemma f2_refuted_packed :
     ~ crash_atomic_at unfixed maxsz ops i j cut.
 Proof.
   exists 40, f2_ops, 1%nat, 0%nat, (Some 5). repeat split.
-  - repeat constructor; cbn; try apply valid_r1.
+  - repeat constructor; cbn; try apply valid_r1; vm_compute; reflexivity.
   - exact f2_refuted.
 Qed.
